@@ -322,7 +322,7 @@ class ModelReplay(Listener):
         if outcome[0] == "yield":
             v = outcome[1]
             d = getattr(v, "_delay", None)
-            y = "timeout %s" % showfr(d)
+            y = ("timeout %s" % showfr(d)) if d is not None else "wait-for-process"
             crashed = "ok"
         elif outcome[0] == "end":
             y = "done"
